@@ -4,13 +4,19 @@ Part A  every class of ``DistributionFactory`` (a class without a recipe is repo
         alphabet per family (4 vectors: the wrapper defaults, shifted / scaled, edge shapes; OpenTURNS wrappers
         also truncated on both / one side and transformed by ``2*x+1``, ``-x``, ``exp(x)``) x p in
         {0.01, 0.1, 0.5, 0.9, 0.99}; dimension 1.
+        Plus the "falsy but valid" alphabet (never imaged by VERIF_SEED): every wrapper with no argument at all,
+        with one argument exactly 0 / 0.0 / int 0 (locations, minima, maxima, modes, means) or exactly 1 (scales,
+        rates, shapes), OpenTURNS truncation bounds exactly 0.0 (lower only, upper only, both with one of them 0,
+        0 on the support bound, after a transformation, int 0), identity transformations ("x", " x ", "1*x+0",
+        "x+0", "" given explicitly), threshold 0.0 / 1.0, generic interfaces with empty / zero native parameters.
 Part J  dimension 2: every ordered pair of Part-A recipes of one library as ``SPJointDistribution`` /
         ``OTJointDistribution`` (+ a Gaussian copula for OpenTURNS on the plain recipes).
 Part X  SciPy <-> OpenTURNS: every (family, parameter vector) that both libraries wrap, compared directly.
 Part S  parameter spaces: every arrival order of <= 2 random and <= 1 deterministic variables (8 shapes) x random
         variable alphabet (per family: 2 scalar variables, 1 vector of size 2 with per-component parameters, 1
         broadcast vector; truncated / transformed / Dirac / generic-interface ones) x deterministic alphabet
-        (bounded, bounded size 2 with lb == ub, half-bounded, integer) x construction path (direct, renamed,
+        (bounded, bounded size 2 with lb == ub, half-bounded, integer, lower bound = value = 0, upper bound = 0 and
+        lb == ub == 0) x size given / left to the default (alternating with the parameter vector) x construction path (direct, renamed,
         built with an extra random variable that is removed).
 Part T  statistics: EmpiricalStatistics / ParametricStatistics on fixed seeded datasets.
 
@@ -196,7 +202,31 @@ def recipes(lib, thorough, img):
         g = [r for r in out if r["id"].startswith("generic-logistic")][0]
         m = _modified(_modified(dict(g, mods=0), "A-"), "TL")
         out.append(m)
+    out.extend(zero_recipes(lib))
     out.sort(key=lambda r: r["mods"])
+    return out
+
+
+def zero_recipes(lib):
+    """The falsy-but-valid alphabet (props/_c19_laws.py): arguments exactly 0 / 0.0 / 1 / "" / identity, arguments
+    left to the defaults, truncation bounds exactly 0.  Not imaged by VERIF_SEED."""
+    out = []
+
+    def rec(cls, kw, spec, name, family, k, numeric, transformed):
+        return dict(cls=cls, kwargs=kw, law=L.resolve_spec(spec), numeric=numeric, transformed=transformed, family=family, pidx=k, id="z:" + name, mods=int(numeric), zero=True)
+
+    for k, (name, family, kw, spec, libs) in enumerate(L.ZERO_PLAIN):
+        if lib in libs:
+            cls = "OTDiracDistribution" if family == "dirac" else f"{lib}{WRAPPER[family]}Distribution"
+            out.append(rec(cls, dict(kw), spec, name, family, k, False, False))
+    if lib == "OT":
+        for k, (name, family, kw, spec, mkw, mods, transformed) in enumerate(L.ZERO_MODS):
+            numeric = bool(mods)
+            out.append(rec(f"OT{WRAPPER[family]}Distribution", {**kw, **mkw}, list(spec) + [list(m) for m in mods], name, family, k, numeric, transformed))
+    for k, (name, glib, idist, prm, extra, spec, transformed) in enumerate(L.ZERO_GENERIC):
+        if glib == lib:
+            numeric = len(spec) > 2
+            out.append(rec(f"{lib}Distribution", dict(interfaced_distribution=idist, parameters=prm, **extra), spec, name, "generic", k, numeric, transformed))
     return out
 
 
@@ -470,6 +500,8 @@ def det_alphabet(img):
         "b2": dict(size=2, type="float", lb=f([-1.0, 0.5]), ub=f([1.0, 0.5]), value=f([0.0, 0.5])),  # second component: lb == ub
         "h1": dict(size=1, type="float", lb=f([0.0]), ub=[math.inf], value=f([1.5])),
         "i1": dict(size=1, type="integer", lb=[Ai + Ki * 0], ub=[Ai + Ki * 4], value=[Ai + Ki * 1]),
+        "z1": dict(size=1, type="float", lb=[0.0], ub=[1.0], value=[0.0]),  # lower bound and value exactly 0
+        "z2": dict(size=2, type="float", lb=[-2.0, 0.0], ub=[0.0, 0.0], value=[0.0, 0.0]),  # upper bound 0; lb == ub == 0
     }
 
 
@@ -505,7 +537,8 @@ def random_alphabet(lib, thorough, img):
     return out
 
 
-PAIR_QUICK = ["generic-normal", "dirac#1", "normal#1+T2", "normal#1+A-", "normal#1+AT", "beta#1+TL", "exponential#1+TU", "normal#1+EXP"]
+PAIR_QUICK = ["generic-normal", "dirac#1", "normal#1+T2", "normal#1+A-", "normal#1+AT", "beta#1+TL", "exponential#1+TU", "normal#1+EXP", "z:normal-default+TL0", "z:normal+ID"]
+JOINT_ZERO_QUICK = ["z:normal-default", "z:uniform-min0", "z:exponential-default", "z:dirac-0", "z:normal-default+TL0", "z:normal-default+TU0", "z:uniform+T0hi", "z:beta+TU0", "z:normal+ID", "z:normal+A-+TL0", "z:generic-norm-01+TL0", "z:generic-norm-empty"]
 
 
 def pair_alphabet(lib, thorough, img):
@@ -514,11 +547,11 @@ def pair_alphabet(lib, thorough, img):
     plus a Dirac, a generic-interface vector and one representative of each modifier."""
     rvs = random_alphabet(lib, False, img)
     if thorough:
-        return rvs
+        return [rv for rv in rvs if not rv["comps"][0].get("zero") or rv["comps"][0]["id"] in PAIR_QUICK]
     keep = []
     for rv in rvs:
         ids = [c["id"] for c in rv["comps"]]
-        if rv["form"] == "vector" or (rv["form"] == "scalar" and (ids[0].endswith("#1") and "+" not in ids[0] and not ids[0].startswith("generic")) or ids[0] in PAIR_QUICK):
+        if (rv["form"] == "vector" and not ids[0].startswith("z:")) or (rv["form"] == "scalar" and (ids[0].endswith("#1") and "+" not in ids[0] and not ids[0].startswith("generic")) or ids[0] in PAIR_QUICK):
             keep.append(rv)
     return keep
 
@@ -536,15 +569,20 @@ def _add_random(ps, name, rv):
     if rv["form"] == "scalar" or rv["form"] == "broadcast":
         kw = dict(comps[0]["kwargs"])
         size = 1 if rv["form"] == "scalar" else 2
+        if size == 1 and comps[0]["pidx"] % 2 == 0:
+            # dimension 1 left to the default of add_random_variable (odd-numbered vectors pass size=1 explicitly)
+            add = lambda name, cls, size, **k: ps.add_random_variable(name, cls, **k)  # noqa: E731
+        else:
+            add = ps.add_random_variable
         if generic:
             prm = kw.pop("parameters", None)
             extra = {}
             if "interfaced_distribution" in kw:
                 extra["interfaced_distribution"] = kw.pop("interfaced_distribution")
                 extra["interfaced_distribution_parameters"] = tuple(prm) if cls == "OTDistribution" else prm
-            ps.add_random_variable(name, cls, size=size, **extra, **kw)
+            add(name, cls, size=size, **extra, **kw)
         else:
-            ps.add_random_variable(name, cls, size=size, **kw)
+            add(name, cls, size=size, **kw)
         return
     # vector with per-component parameters
     kws = [dict(c["kwargs"]) for c in comps]
@@ -563,7 +601,9 @@ def _add_random(ps, name, rv):
     keys = list(kws[0])
     for k in kws[1:]:
         keys += [key for key in k if key not in keys]
-    ps.add_random_vector(name, cls, size=len(comps), **{key: [k.get(key, OT_DEFAULT_MODS.get(key)) for k in kws] for key in keys})
+    # size=0 (the default) asks add_random_vector to deduce the size from the parameters
+    size = {} if comps[0]["family"] in FAMILIES[::2] else {"size": len(comps)}
+    ps.add_random_vector(name, cls, **size, **{key: [k.get(key, OT_DEFAULT_MODS.get(key)) for k in kws] for key in keys})
 
 
 def _add_det(ps, name, det):
@@ -1031,6 +1071,8 @@ def cases_joint(thorough, img):
     out = []
     for lib in ("SP", "OT"):
         recs = recipes(lib, thorough, img)
+        if not thorough:
+            recs = [r for r in recs if not r.get("zero") or r["id"] in JOINT_ZERO_QUICK]
         for c in product.full({"first": recs, "second": recs}):
             out.append({"part": "joint", "marginals": [c["first"], c["second"]], "copula": None})
         if lib == "OT":
@@ -1058,7 +1100,7 @@ def cases_space(thorough, img):
             for k in range(nr):
                 axes[f"r{k}"] = rvs if nr == 1 else pair_alphabet(lib, thorough, img)
             if "D" in shape:
-                axes["det"] = list(dets) if (thorough or nr < 2) else ["b1", "b2"]
+                axes["det"] = list(dets) if nr < 2 else (["b1", "b2", "h1", "i1"] if thorough else ["b1", "b2"])
             # the construction path multiplies the one-random-variable shapes and, for two random variables,
             # the spaces whose two variables are plain (the paths only touch names and the joint's rebuild)
             for c in product.full(axes):
@@ -1072,7 +1114,16 @@ def cases_space(thorough, img):
                 if nr == 0 and lib == "OT":
                     continue  # no random variable: the library is irrelevant
                 mods = sum(v["rv"]["mods"] for v in vs if v["kind"] == "R")
-                paths = PATHS if (nr == 1 or (nr == 2 and mods == 0)) else PATHS[:1]
+                paths = PATHS if (nr == 1 or (nr == 2 and mods == 0 and (thorough or len(shape) == 2))) else PATHS[:1]
+                # (quick: the three-variable shapes are built directly; the paths are crossed with R, RD, DR, RR)
+                # the falsy alphabets (zero recipes, deterministic z1 / z2) are crossed with each other and with one
+                # ordinary partner on the direct path: they probe values, not the construction history
+                zero_rv = any(c_.get("zero") for v in vs if v["kind"] == "R" for c_ in v["rv"]["comps"])
+                zero_det = "det" in c and c["det"] in ("z1", "z2")
+                if nr == 1 and zero_rv and "det" in c and c["det"] not in ("b1", "z1", "z2"):
+                    continue
+                if zero_rv or zero_det:
+                    paths = PATHS[:1]
                 for path in paths:
                     out.append({"part": "space", "lib": lib, "vars": vs, "path": path})
     out.sort(key=lambda c: (len(c["vars"]), sum(v["rv"]["mods"] + len(v["rv"]["comps"]) for v in c["vars"] if v["kind"] == "R"), PATHS.index(c["path"])))
